@@ -8,3 +8,4 @@ mkdir -p build evidence replays
 python3 tools/extract.py
 (cd lean && lake build)
 (cd harness && cargo build --offline)
+(cd /repo && CARGO_TARGET_DIR=/verif/build/repo-target CARGO_PROFILE_DEV_OPT_LEVEL=1 CARGO_PROFILE_DEV_DEBUG=false cargo build --offline -p cgt-cli)
